@@ -176,7 +176,8 @@ theorem exec_TB (cfg : Cfg) (fuel : Nat) (ctx : Ctx) (sh : Sh) (s : St) :
       have := TB_seqM (TB_pushFrame cfg ctx s) fun s1 =>
         TB_seqM (TB_pushChecked cfg ctx locals s1) fun s2 =>
         TB_seqM (TB_ticksN cfg ctx callTicks s2) fun s3 =>
-        TB_seqM (ih ctx body s3) fun s4 => TB_ok_same s4 (leave s4 s.depth s.sp) .ok rfl rfl
+        TB_seqM (ih ctx body s3) fun s4 =>
+        TB_seqM (TB_tick cfg ctx s4) fun s5 => TB_ok_same s5 (leave s5 s.depth s.sp) .ok rfl rfl
       exact TB_mono this (by simp [Sh.safeWeight])
     | recur locals => exact TB_mono (ih ctx _ s) (by simp [Sh.safeWeight])
     | crecur => exact TB_mono (ih ctx _ s) (by simp [Sh.safeWeight])
@@ -184,7 +185,7 @@ theorem exec_TB (cfg : Cfg) (fuel : Nat) (ctx : Ctx) (sh : Sh) (s : St) :
       cases k with
       | zero => exact TB_mono (TB_ok_same _ _ _ rfl rfl) (Nat.zero_le _)
       | succ k =>
-        have := TB_seqM (ih ctx (.call 0 (.call 0 body)) s) (fun s1 => ih ctx (.cb k body) s1)
+        have := TB_seqM (TB_tick cfg ctx s) fun s0 => TB_seqM (ih ctx (.call 0 (.call 0 body)) s0) (fun s1 => ih ctx (.cb k body) s1)
         exact TB_mono this (by simp [Sh.safeWeight, Nat.succ_mul]; omega)
     | safe body =>
       have hw0 : (Sh.safe body).safeWeight = 0 + (body.safeWeight + 1) := by simp [Sh.safeWeight]
